@@ -4,6 +4,7 @@ use crate::h::scenario::Scenario;
 
 pub mod c18;
 pub mod c19;
+pub mod c20;
 
 fn c19_work(seed: u64, tier: Tier, idx: u64) -> Option<Scenario> {
     // sweeps first (all two-way splits of the corpus sessions, three-way splits at header/body
@@ -43,7 +44,28 @@ fn c18_work(seed: u64, tier: Tier, idx: u64) -> Option<Scenario> {
     }
 }
 
+fn c20_work(seed: u64, tier: Tier, idx: u64) -> Option<Scenario> {
+    let random = if tier == Tier::Quick { 6_000 } else { 300_000 };
+    if idx < random {
+        Some(c20::generate(seed, idx))
+    } else {
+        None
+    }
+}
+
 static DEFS: &[PropDef] = &[PropDef {
+    id: "C20",
+    level: "exploration",
+    work: c20_work,
+    judge: c20::judge,
+    rule: "each scenario = one open-loop client session of 10..400 pipelined messages over 2..5 URIs (distinct, differing only in scheme, only in directory, only in authority): didOpen/didChange (1..3 content changes)/didClose/reopen, $/verif/text probes, feature requests, unknown requests/notifications, with or without the publishDiagnostics capability; every written content carries a fresh identifier so each read is attributable to one write; seeded schedule policy, channel capacities 1..33, stdout capacity 1 B..1 MiB, read sizes, client stalls of 100..200000 ticks; judged against a sequential map model in send order; non-trivial = at least one fault/back-pressure/yield fired and a frame was emitted; distinct = distinct interleaving signature",
+    assumptions: &[
+        "documents and edits are ASCII, in-range and line/token aligned, so that position conversion (C08) and incremental analysis (C01) are not what is being varied; a diagnostics mismatch on a document whose server-side text is right is attributed to C01",
+        "the specification is sequential in the client's send order (one client, one FIFO stream), so the history check is linear; no linearizability search is needed",
+        "sessions end gracefully (shutdown/exit or end of input on a frame boundary), so every owed response must arrive",
+    ],
+    wall_cap: (150, 1500),
+}, PropDef {
     id: "C18",
     level: "exploration",
     work: c18_work,
